@@ -31,7 +31,7 @@ TRUSTED_BASE = [
     "vlib/props/C12.py renders one abstract clause list both as Prolog text (operators only for , ; -> :- \\+ and lists) and in the canonical term syntax read by drv_C12",
     "ev/1 is `assertz(evl(X))` on the implementation and a trace item in the model; the log is read back with findall/3 + retractall/1",
     "the block/ball-stack registers, cont_pts and the WAM instructions are not mirrored instruction by instruction: Scryer.Exc.Proto mirrors the cont_pts/b_cutoff discipline only; the rest is tied by differential execution",
-    "the result of the model is taken from the first fuel of the schedule that suffices (fuel monotonicity is proved for Scryer.Solve, not re-proved for Scryer.Exc)",
+    "the result of the model is taken from the first fuel of the schedule that suffices (fuel monotonicity is proved for Scryer.Solve, not re-proved for Scryer.Exc; drv_C12 re-runs every case with twice the fuel and reports `unstable` if the trace differs)",
 ]
 ASSUMPTIONS = [
     "programs stay inside the model's domain: integer arithmetic, no cyclic bindings, termination within the fuel schedule (otherwise dropped and counted)",
@@ -799,6 +799,7 @@ def run(ctx):
         if iv is None or compare(iv, mv) or fu != FOLLOW_EXPECT:
             retry.append(c)
     retried = len(retry)
+    retry = retry[:40]     # bound the sequential pass; what stays inconclusive is counted and reported
     if retry:
         i3, _ = diff.run_cases([{"impl": ["R\t%s.R" % c["id"]] + c["impl"]} for c in retry],
                                impl_env={"SV_TIMEOUT_MS": "60000"}, parallel=False)
@@ -850,6 +851,14 @@ def run(ctx):
             detail += "\nraw: " + iv["raw"]
         findings.append(core.Finding("violation", sig, detail, strip(c)))
     n_cases = len(cases)
+    if inconclusive > max(3, n_cases // 100):
+        # no result from the implementation even on the sequential re-run: the machine is broken
+        bad = [c for c in cases if views(c, impl, model)[0] is None][:1]
+        findings.append(core.Finding(
+            "violation", {"cls": "any", "part": "no-result"},
+            "%d of %d cases gave no result on the implementation (timeout/abort/truncated) after a sequential re-run; first: %s -> %r"
+            % (inconclusive, n_cases, bad[0]["id"] if bad else "?", impl.get(bad[0]["id"] + ".r") if bad else None),
+            strip(bad[0]) if bad else None))
     return {
         "evaluations": n_cases - oof,
         "distinct_nontrivial": len(distinct),
